@@ -17,6 +17,7 @@ import json
 import os
 
 from harness.common import facts as F
+from harness.c02 import translate
 
 HERE = os.path.dirname(os.path.abspath(__file__))
 
@@ -80,12 +81,15 @@ def texp(e):
     raise Unknown('tuple expression %s' % ast.unparse(e))
 
 
+SEG = ['segment']            # name of the walk loop's target (read off the source in extract())
+
+
 def sexp(e):
-    if isinstance(e, ast.Name) and e.id == 'segment':
+    if isinstance(e, ast.Name) and e.id == SEG[0]:
         return 'SSegment'
     if isinstance(e, ast.Constant) and isinstance(e.value, str):
         return '(SConst %s)' % F.coq_text(e.value)
-    if isinstance(e, ast.Subscript) and isinstance(e.value, ast.Name) and e.value.id == 'segment' \
+    if isinstance(e, ast.Subscript) and isinstance(e.value, ast.Name) and e.value.id == SEG[0] \
             and isinstance(e.slice, ast.Slice) and e.slice.step is None and e.slice.upper is None \
             and isinstance(e.slice.lower, ast.Constant) and isinstance(e.slice.lower.value, int):
         return '(SSegFrom %s)' % zlit(e.slice.lower.value)
@@ -174,6 +178,9 @@ def extract(src_root):
     attempt('view_selector', selector)
 
     call2 = copy.deepcopy(call)
+    fors = [n for n in ast.walk(call2) if isinstance(n, ast.For) and isinstance(n.target, ast.Name)
+            and ast.unparse(n.iter) == 'vpath_tuple']
+    SEG[0] = fors[0].target.id if len(fors) == 1 else 'segment'
     try:
         rets = [n for n in ast.walk(call2) if isinstance(n, ast.Return)]
         rets.sort(key=lambda n: (n.lineno, n.col_offset))
@@ -195,19 +202,25 @@ def extract(src_root):
 
     # `if segment[:K] == view_selector:`
     def sel_len():
+        def is_slice(x):
+            return isinstance(x, ast.Subscript) and isinstance(x.value, ast.Name) and x.value.id == SEG[0] \
+                and isinstance(x.slice, ast.Slice) and x.slice.lower is None and x.slice.step is None \
+                and isinstance(x.slice.upper, ast.Constant) and isinstance(x.slice.upper.value, int)
+
+        def is_sel(x):
+            return (isinstance(x, ast.Name) and x.id == 'view_selector') or ast.unparse(x) == 'self.VIEW_SELECTOR'
         hits = []
         for n in ast.walk(call2):
-            if isinstance(n, ast.Compare) and len(n.ops) == 1 and isinstance(n.ops[0], ast.Eq) \
-                    and isinstance(n.left, ast.Subscript) and isinstance(n.left.value, ast.Name) \
-                    and n.left.value.id == 'segment' and isinstance(n.left.slice, ast.Slice) \
-                    and n.left.slice.lower is None and n.left.slice.step is None \
-                    and isinstance(n.left.slice.upper, ast.Constant) and isinstance(n.left.slice.upper.value, int) \
-                    and isinstance(n.comparators[0], ast.Name) and n.comparators[0].id == 'view_selector':
-                hits.append(n)
+            if isinstance(n, ast.Compare) and len(n.ops) == 1 and isinstance(n.ops[0], ast.Eq):
+                l, r = n.left, n.comparators[0]
+                if is_slice(l) and is_sel(r):
+                    hits.append(l)
+                elif is_slice(r) and is_sel(l):
+                    hits.append(r)
         if len(hits) != 1:
             raise Unknown('selector test (%d candidates)' % len(hits))
-        k = hits[0].left.slice.upper.value
-        hits[0].left.slice.upper = HOLE
+        k = hits[0].slice.upper.value
+        hits[0].slice.upper = HOLE
         return k
     attempt('selector_len', sel_len)
 
@@ -252,9 +265,14 @@ def extract(src_root):
         problems.append('fact vroot_idx unrecognised: %s' % e)
 
     try:
-        skeleton = F.shape(call2)
+        # only the PREAMBLE of __call__ (the statements before `root = self.root`: match dictionary / PATH_INFO /
+        # virtual-root header plumbing) is still pinned; everything from there on is translated (translate.py)
+        idx = [i for i, st in enumerate(call2.body) if ast.unparse(st) == 'root = self.root']
+        if len(idx) != 1:
+            raise Unknown('`root = self.root` not found exactly once at the top level of __call__')
+        skeleton = F.shape(ast.Module(body=call2.body[:idx[0]], type_ignores=[]))
     except Exception as e:
-        problems.append('cannot hash the skeleton of __call__: %r' % e)
+        problems.append('cannot hash the preamble of __call__: %s' % e)
     router_skel = None
     try:
         router_skel = extract_router(src_root, vals)
@@ -322,7 +340,7 @@ def _str(v):
 
 
 def coq(vals):
-    out = [F.HEADER, 'Require Import Verif.Lib.C02Expr.\n']
+    out = [F.HEADER, 'Require Import Verif.Lib.Text Verif.Lib.C02Expr Verif.Model.C02_base.\n']
     out.append('Definition view_selector : text := %s.\n' % F.coq_text(vals['view_selector']))
     out.append('Definition selector_len : Z := %s%%Z.\n' % zlit(vals['selector_len']))
     for k in ('ret_selector', 'ret_noitem', 'ret_keyerror', 'ret_final'):
@@ -348,12 +366,12 @@ def facts(src_root):
     with open(os.path.join(HERE, 'skeleton.json')) as f:
         wants = json.load(f)
     skeleton = skeleton or {}
-    want = wants['ResourceTreeTraverser.__call__']
-    summary['pyramid/traversal.py:ResourceTreeTraverser.__call__[skeleton]'] = skeleton.get('call')
+    want = wants['ResourceTreeTraverser.__call__[preamble]']
+    summary['pyramid/traversal.py:ResourceTreeTraverser.__call__[preamble]'] = skeleton.get('call')
     if skeleton.get('call') is not None and skeleton['call'] != want:
-        problems.append('shape pin pyramid/traversal.py:ResourceTreeTraverser.__call__ (skeleton with the '
-                        'translated expressions blanked) changed (%s -> %s): the hand-written loop follows '
-                        'the previous text' % (want, skeleton['call']))
+        problems.append('shape pin pyramid/traversal.py:ResourceTreeTraverser.__call__ (the statements before '
+                        '`root = self.root`, vroot_idx expressions blanked) changed (%s -> %s): the hand-written '
+                        'path_and_subpath / vroot_part follow the previous text' % (want, skeleton['call']))
     wantr = wants.get('Router.handle_request[traversal]')
     summary['pyramid/router.py:Router.handle_request[traversal part]'] = skeleton.get('router')
     if skeleton.get('router') is not None and skeleton['router'] != wantr:
@@ -361,4 +379,11 @@ def facts(src_root):
                         '.. attrs.update(tdict)) changed (%s -> %s): the model of the attribute copy follows the '
                         'previous text' % (wantr, skeleton['router']))
     summary.update({k: vals[k] for k in vals})
-    return {'coq': coq(vals), 'summary': summary, 'problems': problems}
+    # control flow of split_path_info / decode_path_info / traversal_path_info / the tail of __call__,
+    # regenerated from the source (harness/c02/translate.py)
+    gen, tproblems, tsummary = translate.translate_tree(src_root)
+    problems += tproblems
+    summary.update({'translated:' + k: v for k, v in tsummary.items()})
+    text = coq(vals) + ('\n(* ---- regenerated from src/pyramid/traversal.py by harness/c02/translate.py: control flow\n'
+                        '   translated mechanically, leaves through the primitive table (see that file) ---- *)\n') + gen
+    return {'coq': text, 'summary': summary, 'problems': problems}
